@@ -36,7 +36,7 @@ GEN_MODULES = [("GenCpc",
                 {"cpc/union.rs": ["to_sketch", "reduce_k", "or_window_into_matrix", "or_table_into_matrix",
                                   "or_matrix_into_matrix", "walk_table_updating_sketch"]})]
 OPNAMES = {0: "new", 1: "update", 2: "row_col", 3: "dump", 4: "validate", 5: "matrix", 6: "flavor_of", 7: "offset_of",
-           8: "estimate", 9: "phase_of", 18: "roundtrip", 19: "ser", 17: "sk_ser", 30: "big", 40: "deser", 41: "mut_deser", 10: "sk_new", 11: "sk_rc", 12: "sk_item", 13: "sk_dump", 14: "sk_validate", 15: "sk_matrix",
+           8: "estimate", 9: "phase_of", 18: "roundtrip", 19: "ser", 17: "sk_ser", 30: "big", 32: "max_bytes", 40: "deser", 41: "mut_deser", 10: "sk_new", 11: "sk_rc", 12: "sk_item", 13: "sk_dump", 14: "sk_validate", 15: "sk_matrix",
            16: "sk_roundtrip", 20: "un_new", 21: "un_update", 22: "un_state", 23: "un_result"}
 U32MAX = 2**32 - 1
 
@@ -224,6 +224,66 @@ def stream_right_to_left(b, rng, ncols):
             b.rc((r << 6) | col)
 
 
+def stream_probe_runs(b, rng):
+    """long probe runs in a small surprising-value table, then deletions in the middle of a run.
+    Rows are grouped so that their pairs share a home slot (home = high bits of (row << 6 | col)); a block of
+    adjacent rows (also wrapping from row K-1 to row 0) keeps surprising zeros in the first columns; once the
+    window has moved past them the table holds [zeros of the block] and, added afterwards, surprising ones of the
+    same and the neighbouring rows (inserted behind entries that sit in their home slots).  Then the zeros are
+    plugged one by one (maybe_delete with its run repair) and after every deletion every surprising one is offered
+    again (a duplicate must be found where it is) and new ones are added."""
+    k = b.sim.k
+    nblock = rng.randint(2, min(5, k // 2))
+    start = rng.choice([0, k - nblock, k - nblock + 1, k - 2, k - 1, rng.randrange(k)])
+    block = [(start + i) % k for i in range(nblock)]
+    zero_cols = rng.randint(1, 3)
+    holes = []
+    for r in block:
+        cols = rng.sample(range(zero_cols + 1), rng.randint(1, zero_cols + 1))
+        holes += [(r << 6) | c for c in cols]
+    rng.shuffle(holes)
+    holeset = set(holes)
+    want_off = rng.randint(zero_cols + 1, zero_cols + 4)
+    col = 0
+    while b.sim.offset() < want_off and col < 40:
+        rows = list(range(k)); rng.shuffle(rows)
+        for r in rows:
+            rc = (r << 6) | col
+            if rc not in holeset:
+                b.rc(rc)
+        col += 1
+    b.observe()
+    ones = []
+    neigh = sorted(set(block) | {(block[0] - 1) % k, (block[-1] + 1) % k, (block[-1] + 2) % k})
+
+    def add_one():
+        for _ in range(20):
+            rc = (rng.choice(neigh) << 6) | rng.randint(min(63, b.sim.offset() + 8), 63)
+            if not b.sim.has(rc):
+                if b.rc(rc):
+                    ones.append(rc)
+                return
+    for _ in range(rng.randint(2, 3 * nblock)):
+        add_one()
+    while holes:
+        h = holes.pop()
+        if (h & 63) < b.sim.offset():
+            b.rc(h)                                    # maybe_delete in the middle of a run
+        else:
+            b.rc(h)
+        for rc in ones:
+            b.rc(rc)                                   # duplicates: must be no-ops
+        for hh in rng.sample(holes, min(len(holes), 2)):
+            pass
+        if rng.random() < 0.6:
+            add_one()
+        if rng.random() < 0.15:
+            b.observe()
+    for rc in ones:
+        b.rc(rc)
+    b.observe()
+
+
 def probes(lgk):
     k = 1 << lgk
     cs = {0, 1, 2}
@@ -242,6 +302,8 @@ def gen_case(rng, cid, tier, kind, lgk, codec=False):
     k = 1 << lgk
     b = Builder(rng, lgk, seed, dump_budget=(70 if lgk <= 6 else 24 if lgk <= 9 else 6))
     b.codec = codec
+    if codec:
+        b.observe()                 # the empty sketch: 8-byte image, round trip
     if tier != "quick":
         b.cost_budget *= 5
     if kind == "colfill":
@@ -260,6 +322,11 @@ def gen_case(rng, cid, tier, kind, lgk, codec=False):
         base = rng.getrandbits(62)
         for i in range(n):
             b.item(base + i)
+    elif kind == "probe_runs":
+        for _ in range(3):
+            stream_probe_runs(b, rng)
+            if b.sim.offset() > 40:
+                break
     elif kind == "fullcols":            # complete columns only: pinned / sliding sketches WITHOUT surprising values
         stream_colfill(b, rng, 57 if lgk <= 6 else 12, holes=0, far_ones=0)
     elif kind == "rtl":
@@ -300,6 +367,10 @@ def plan(tier):
             p.append(("rtl", lgk))
         p += [("random", 4), ("random", 5), ("hashed", 4), ("hashed", 6)]
         p += [("hashed_long", 4), ("hashed_long", 5), ("hashed_long", 6), ("hashed_long", 7)]
+        for rep in range(4):
+            for lgk in (4, 5, 6):
+                p.append(("probe_runs", lgk))
+        p += [("probe_runs", 7), ("probe_runs", 8)]
     else:
         for rep in range(6):
             for lgk in (4, 4, 5, 5, 6, 6, 7, 8):
@@ -316,6 +387,9 @@ def plan(tier):
         for rep in range(3):
             for lgk in (4, 5, 6, 7):
                 p.append(("hashed_long", lgk))
+        for rep in range(30):
+            for lgk in (4, 5, 6, 7, 8):
+                p.append(("probe_runs", lgk))
         for rep in range(4):
             p += [("sparse_big", 21), ("sparse_big", 26)]
     return p
@@ -528,7 +602,9 @@ def gen_extremes(rng, tier, n):
     for (lgk, full, extra) in big:
         cases.append(Case(len(cases), [lgk, 9001], [(30, [lgk, full, extra])], tag="cpc-extreme-big-lg%d" % lgk))
     # 3. the smallest configuration through every window offset, and sparse sketches at lg_k 21 / 26
-    for kind, lgk in [("colfill", 4), ("colfill", 4), ("rtl", 4), ("random", 4), ("sparse_big", 21), ("sparse_big", 26)]:
+    for kind, lgk in [("colfill", 4), ("colfill", 4), ("rtl", 4), ("random", 4), ("sparse_big", 21), ("sparse_big", 26),
+                      ("hashed_long", 4), ("hashed_long", 5), ("hashed_long", 6), ("probe_runs", 4), ("probe_runs", 5),
+                      ("probe_runs", 6), ("fullcols", 4), ("fullcols", 5)]:
         c = gen_case(rng, len(cases), tier, kind, lgk)
         cases.append(c)
     if n is not None:
@@ -613,7 +689,20 @@ def gen_malformed(rng, tier, n):
     return cases
 
 
+def gen_size(rng, tier, n):
+    """C18: max_serialized_bytes over the whole lg_k range (incl. the out-of-range panics), and serialized sketches"""
+    ops = [(32, [l]) for l in range(4, 27)]
+    cases = [Case(0, [4, 9001], ops, tag="cpc-size-table")]
+    for l in (3, 27):
+        cases.append(Case(len(cases), [4, 9001], [(32, [l])], tag="cpc-size-out-of-range"))
+    for c in gen_codec(rng, tier, 16 if tier == "quick" else 60):
+        c.cid = len(cases); cases.append(c)
+    return cases
+
+
 def gen(rng, tier, n=None, focus=None):
+    if focus == "size":
+        return gen_size(rng, tier, n)
     if focus == "malformed":
         return gen_malformed(rng, tier, n)
     if focus == "codec":
@@ -635,7 +724,7 @@ def gen(rng, tier, n=None, focus=None):
 def nontrivial(case, obs):
     """C05: at least two distinct pairs were offered and the state was observed at least once;
     C06: at least two union updates and one result were taken"""
-    if any(c in (9, 30, 40, 41) for (c, a) in case.ops):
+    if any(c in (9, 30, 32, 40, 41) for (c, a) in case.ops):
         return True
     if any(c == 20 for (c, a) in case.ops):
         return sum(1 for (c, a) in case.ops if c == 21) >= 2 and any(c == 23 for (c, a) in case.ops)
